@@ -2,12 +2,12 @@
 # Usage: seedtest.sh <seed-dir> <property> [tier]
 # Applies <seed-dir>/patch.diff to /repo, runs the property's check, reverts /repo, prints the outcome.
 set -u
-SEED="$1"; PROP="$2"; TIER="${3:-quick}"
+SEED="$(realpath $1)"; PROP="$2"; TIER="${3:-quick}"
 cd /repo || exit 9
 if [ -n "$(git status --porcelain --untracked-files=no)" ]; then echo "REPO-DIRTY: refusing"; exit 9; fi
 git apply "$SEED/patch.diff" || { echo "PATCH-DOES-NOT-APPLY"; exit 9; }
 cd /verif
-./check "$PROP" --tier "$TIER" > "$SEED/check_${PROP}_${TIER}.log" 2>&1
+VERIF_NO_EVIDENCE=1 ./check "$PROP" --tier "$TIER" > "$SEED/check_${PROP}_${TIER}.log" 2>&1
 RC=$?
 git -C /repo checkout -- .
 echo "seed=$(basename $SEED) property=$PROP tier=$TIER exit=$RC"
